@@ -1107,6 +1107,11 @@ class Engine:
         v = self.eval(node.operand, st, exits)
         if isinstance(node.op, ast.Not):
             return BoolV(z3.Not(to_bool(v)))
+        if isinstance(v, Obj):                 # operator methods of objects by contract
+            h = self.c.calls.get("unary:%s:%s" % (type(node.op).__name__, v.cls))
+            if h is None:
+                raise Unsupported("unary %s on %s (no contract given)" % (type(node.op).__name__, v.cls))
+            return h.handler(self, st, [v], {}, node, exits)
         if isinstance(node.op, ast.USub):
             if isinstance(v, (Seq, Tup)):
                 self.raise_exc(st, "TypeError", z3.BoolVal(True), node.lineno, exits)
@@ -1251,6 +1256,10 @@ class Engine:
             h = self.c.calls.get("binop:%s:%s" % (op, a.cls))
             if h is not None:
                 return h.handler(self, st, [a, b], {}, node, exits)
+        if isinstance(b, Obj) and not isinstance(a, Obj):       # number (op) object: the reflected operator of the object, by contract
+            h = self.c.calls.get("rbinop:%s:%s" % (op, b.cls))
+            if h is not None:
+                return h.handler(self, st, [b, a], {}, node, exits)
         if isinstance(a, Num) and isinstance(b, (Seq, Tup)) and op in ("Add", "Sub") or \
                 isinstance(b, Num) and isinstance(a, (Seq, Tup)) and op in ("Add", "Sub"):
             self.raise_exc(st, "TypeError", z3.BoolVal(True), line, exits)
